@@ -36,6 +36,11 @@ class PanicPath(Exception):
     pass
 
 
+class NeedFork(Exception):
+    """a switchInt on a symbolic condition beyond the decisions taken so far"""
+    pass
+
+
 # ----------------------------------------------------------------------------- MIR dump + parse
 def dump_mir():
     if os.environ.get("C04_MIR_FILE"):   # development aid only: reuse an existing dump
@@ -56,7 +61,7 @@ def split_functions(mir):
     fns = {}
     cur = None
     for line in mir.splitlines():
-        if line.startswith("fn "):
+        if line.startswith("fn ") or (line.startswith("const ") and "::promoted[" in line and line.endswith("{")):
             cur = line
             fns[cur] = []
         elif cur is not None:
@@ -269,6 +274,40 @@ class Interp:
         self.encoded = set()
         self.steps = 0
 
+    # -- symbolic branches: depth-first re-execution with a decision list --------------------------
+    decisions, dpos, pc = (), 0, None
+
+    def decide(self, term):
+        if self.pc is None:
+            raise Unsupported("switchInt on symbolic operand")
+        if self.dpos >= len(self.decisions):
+            raise NeedFork()
+        d = self.decisions[self.dpos]
+        self.dpos += 1
+        self.pc.append(term if d else f"(not {term})")
+        return d
+
+    def run_paths(self, name, mkargs, limit=32):
+        """every path of `name` through symbolic switches: list of (path condition terms, result | PanicPath)."""
+        paths, work = [], [[]]
+        while work:
+            d = work.pop()
+            self.decisions, self.dpos, self.pc = d, 0, []
+            self.steps = 0
+            try:
+                res = self.run(name, mkargs())
+                paths.append((list(self.pc), res))
+            except NeedFork:
+                work.append(d + [False])
+                work.append(d + [True])
+            except PanicPath as e:
+                paths.append((list(self.pc), e))
+            finally:
+                pc_done, self.pc = self.pc, None
+            if len(paths) + len(work) > limit:
+                raise Unsupported(f"more than {limit} symbolic paths in {name.split('(')[0]}")
+        return paths
+
     def find(self, suffix_re):
         hits = [k for k in self.fns if re.search(suffix_re, k)]
         if len(hits) != 1:
@@ -283,6 +322,16 @@ class Interp:
                 return {"kind": "bool", "v": True}
             if c == "false":
                 return {"kind": "bool", "v": False}
+            mp = re.search(r"::promoted\[(\d+)\]$", c)
+            if mp:      # a promoted constant of the function being executed: run its own MIR item
+                key = f"const {fr.fn}::promoted[{mp.group(1)}]:"
+                hits = [k for k in self.fns if k.startswith(key)]
+                if len(hits) != 1:
+                    raise Unsupported(f"{len(hits)} MIR items for {key}")
+                return self.run(hits[0], {})
+            mi = re.match(r"^(-?\d+)_(u64|usize|i64|isize|u32|i32)$", c)
+            if mi:
+                return {"kind": "int", "v": int(mi.group(1))}
             return {"kind": "opaque", "what": c}
         for pre in ("no_retag copy ", "move ", "copy "):
             if s.startswith(pre):
@@ -327,6 +376,19 @@ class Interp:
             if ni.get("kind") != "bool":
                 raise Unsupported("null_included operand")
             return {"kind": "range", "start": fields["start"], "end": fields["end"], "null_included": ni["v"]}
+        m = re.match(r"^Not\((.+)\)$", rhs)
+        if m:
+            v = self.operand(fr, m.group(1))
+            if v.get("kind") == "bool":
+                return {"kind": "bool", "v": not v["v"]}
+            if v.get("kind") == "sbool":
+                return {"kind": "sbool", "t": f"(not {v['t']})"}
+            raise Unsupported("Not on " + str(v.get("kind")))
+        m = re.match(r"^std::option::Option::<(u64|i64|usize)>::Some\((.+)\)$", rhs)
+        if m:
+            return {"kind": "opt", "variant": "Some", "payload": [self.operand(fr, m.group(2))]}
+        if re.match(r"^std::option::Option::<(u64|i64|usize)>::None$", rhs):
+            return {"kind": "opt", "variant": "None", "payload": []}
         if rhs.startswith("{closure@"):
             return {"kind": "opaque", "what": "closure"}
         if rhs.startswith("(") and rhs.endswith(")"):
@@ -343,11 +405,38 @@ class Interp:
         if m:
             name = self.find(r"^fn candidates::<impl at [^>]*candidates\.rs[^>]*>::" + m.group(1) + r"\(_1: Bound<T>, _2: bool\)")
             return self.run(name, {1: a[0], 2: a[1]})
-        if func.endswith("NullableValue>::is_null"):
+        if func.endswith("NullableValue>::is_null") or func == "FieldValue::is_null":
             v = deref(a[0])
-            if v.get("kind") != "fv" or not isinstance(v["null"], bool):
-                raise Unsupported("is_null on a value whose nullness is symbolic")
+            if v.get("kind") == "fvlist":
+                return {"kind": "bool", "v": False}
+            if v.get("kind") != "fv":
+                raise Unsupported("is_null on " + str(v.get("kind")))
+            if not isinstance(v["null"], bool):
+                return {"kind": "sbool", "t": v["null"]}
             return {"kind": "bool", "v": v["null"]}
+        if func in ("FieldValue::as_u64", "FieldValue::as_i64", "FieldValue::as_usize"):
+            v = deref(a[0])
+            if v.get("kind") != "fv":
+                raise Unsupported(func + " on non-scalar")
+            lo, hi = {"FieldValue::as_u64": (0, HI), "FieldValue::as_usize": (0, HI), "FieldValue::as_i64": (LO, 2 ** 63 - 1)}[func]
+            lo_t = str(lo) if lo >= 0 else f"(- {-lo})"
+            # value-level definition: Some(v) iff the value is a non-null integer in the target range
+            return {"kind": "symopt", "some": f"(and (not {smt_bool(v['null'])}) (>= {v['num']} {lo_t}) (<= {v['num']} {hi}))", "val": v["num"]}
+        if re.match(r"^<(std::option::)?Option<(u64|i64|usize)> as PartialEq>::(eq|ne)$", func):
+            def so(x):
+                x = deref(x)
+                if x.get("kind") == "symopt":
+                    return x["some"], x["val"]
+                if x.get("kind") == "opt":
+                    if x["variant"] == "None":
+                        return "false", "0"
+                    p = x["payload"][0]
+                    if p.get("kind") == "int":
+                        return "true", str(p["v"])
+                raise Unsupported("Option comparison operand")
+            (s1, v1), (s2, v2) = so(a[0]), so(a[1])
+            t = f"(or (and (not {s1}) (not {s2})) (and {s1} {s2} (= {v1} {v2})))"
+            return {"kind": "sbool", "t": t if func.endswith("eq") else f"(not {t})"}
         if re.search(r"Arguments::<'_>::(from_str|new)", func) or "fmt::rt::Argument" in func:
             return {"kind": "opaque", "what": "fmt"}
         if func.startswith("panic_fmt") or "::panic" in func:
@@ -381,9 +470,11 @@ class Interp:
         raise Unsupported("call to " + func)
 
     def run(self, name, args):
-        self.encoded.add(name.split("(")[0][3:])
+        if name.startswith("fn "):
+            self.encoded.add(name.split("(")[0][3:])
         bbs = parse_blocks(self.fns[name])
         fr = Frame(self)
+        fr.fn = name.split("(")[0][3:] if name.startswith("fn ") else name.split("::promoted[")[0][6:]
         fr.l.update(args)
         bb = "bb0"
         while True:
@@ -415,6 +506,8 @@ class Interp:
                         val = 1 if v["v"] else 0
                     elif v.get("kind") == "int":
                         val = v["v"]
+                    elif v.get("kind") == "sbool":
+                        val = 1 if self.decide(v["t"]) else 0
                     else:
                         raise Unsupported("switchInt on symbolic operand")
                     targets = dict(t.split(": ") for t in split_top(m.group(2)))
@@ -535,11 +628,22 @@ def obligations(interp, fn_label, closure_prefix_re, arms, list_lens):
                                    ({"kind": "tagged", "variant": "NonexistentOptional", "payload": []}, "nonexistent")):
                 if tlabel == "nonexistent" and sname not in ("scalar", f"list{list_lens[0]}"):
                     continue
-                arg = {"kind": "tuple", "items": [{"kind": "opaque", "what": "ctx"}, tagged]}
-                res = interp.run(name, {1: envref, 2: arg})
-                if res.get("kind") != "tuple" or res["items"][1].get("kind") != "cand":
-                    raise Unsupported("closure result shape")
-                mem = member(res["items"][1], p)
+                def mkargs(tagged=tagged):
+                    env = {"kind": "env", "items": [cand("Init"), {"kind": "opaque", "what": "field_name"}, {"kind": "opaque", "what": "field_type"}, {"kind": "opaque", "what": "x"}]}
+                    envref = {"kind": "ref", "get": (lambda e=env: e), "set": None}
+                    return {1: envref, 2: {"kind": "tuple", "items": [{"kind": "opaque", "what": "ctx"}, tagged]}}
+                paths = interp.run_paths(name, mkargs)
+                bad_terms, panic_terms = [], []
+                for pc, res in paths:
+                    pct = "(and true " + " ".join(pc) + ")"
+                    if isinstance(res, PanicPath):
+                        panic_terms.append(pct)
+                        continue
+                    if res.get("kind") != "tuple" or res["items"][1].get("kind") != "cand":
+                        raise Unsupported("closure result shape")
+                    bad_terms.append(f"(and {pct} (not {member(res['items'][1], p)}))")
+                mem = "(not (or false " + " ".join(bad_terms) + "))"
+                panics = "(or false " + " ".join(panic_terms) + ")"
                 if tlabel == "nonexistent":
                     passes = "true"
                 elif op == "OneOf":
@@ -548,7 +652,12 @@ def obligations(interp, fn_label, closure_prefix_re, arms, list_lens):
                     passes = OPS[op](p, tagval)
                 smt = "\n".join(header(n) + [f"(assert (and {passes} (Init pn pv) (not {mem})))", "(check-sat)", "(get-model)"])
                 vac = "\n".join(header(n) + [f"(assert (and {passes} (Init pn pv)))", "(check-sat)"])
-                yield (f"{fn_label}/{op}/{sname}/{tlabel}", smt, vac, {"fn": fn_label, "op": op, "shape": sname, "tag": tlabel, "closure": name.split("(")[0][3:], "member": mem, "smt": smt})
+                meta = {"fn": fn_label, "op": op, "shape": sname, "tag": tlabel, "closure": name.split("(")[0][3:], "member": mem, "smt": smt, "paths": len(paths)}
+                yield (f"{fn_label}/{op}/{sname}/{tlabel}", smt, vac, meta)
+                if panic_terms:
+                    # a path of the constructor panics: is it reachable for a value the engine lets through?
+                    psmt = "\n".join(header(n) + [f"(assert (and {passes} (Init pn pv) {panics}))", "(check-sat)", "(get-model)"])
+                    yield (f"{fn_label}/{op}/{sname}/{tlabel}/panic-free", psmt, vac, dict(meta, panic=True, smt=psmt))
 
 
 def model_values(out):
@@ -573,9 +682,9 @@ def native(cases):
                        env=env, capture_output=True, text=True)
     res = []
     for ln in r.stdout.splitlines():
-        m = re.search(r"C04CASE (\d+) passes=(true|false) member=(true|false)$", ln.strip())
+        m = re.search(r"C04CASE (\d+) passes=(true|false) member=(true|false|panic)$", ln.strip())
         if m:
-            res.append((m.group(2) == "true", m.group(3) == "true"))
+            res.append((m.group(2) == "true", "panic" if m.group(3) == "panic" else m.group(3) == "true"))
     if len(res) != len(cases):
         raise Unsupported("native run did not report every case: " + r.stdout[-400:] + r.stderr[-800:])
     return res
@@ -658,9 +767,14 @@ def main():
                 tv = {"kind": "fvlist", "elems": [FV(x is None, lit(x)) for x in tag]}
             else:
                 tv = FV(tag is None, lit(tag))
-            env = {"kind": "env", "items": [cand("All"), {"kind": "opaque"}, {"kind": "opaque"}, {"kind": "opaque"}]}
-            res = interp2.run(name, {1: {"kind": "ref", "get": (lambda e=env: e), "set": None}, 2: {"kind": "tuple", "items": [{"kind": "opaque"}, {"kind": "tagged", "variant": "Some", "payload": [tv]}]}})
-            mem = member(res["items"][1], FV(pval is None, lit(pval)))
+            def mkargs(tv=tv):
+                env = {"kind": "env", "items": [cand("All"), {"kind": "opaque"}, {"kind": "opaque"}, {"kind": "opaque"}]}
+                return {1: {"kind": "ref", "get": (lambda e=env: e), "set": None}, 2: {"kind": "tuple", "items": [{"kind": "opaque"}, {"kind": "tagged", "variant": "Some", "payload": [tv]}]}}
+            terms = []
+            for pc, res in interp2.run_paths(name, mkargs):
+                if not isinstance(res, PanicPath):
+                    terms.append("(and true " + " ".join(pc) + " " + member(res["items"][1], FV(pval is None, lit(pval))) + ")")
+            mem = "(or false " + " ".join(terms) + ")"
             script += ["(push)", f"(assert {mem})", "(check-sat)", "(pop)"]
             metas.append((op, tag, pval, mem_real))
         t = time.time()
@@ -706,7 +820,7 @@ def main():
             else:
                 inconclusive.append(f"{oid}: outside the known failing region the solvers are undecided (z3={ra}, cvc5={rb})")
                 continue
-        if meta["fn"] != "compute_candidate_from_operation" or meta["tag"] != "some":
+        if meta["fn"] != "compute_candidate_from_operation":
             inconclusive.append(f"{oid}: solver found a counterexample (p={vals.get('pv')}, tag={vals.get('av')}) but this constructor has no native entry point to replay it against")
             continue
         if meta["shape"] == "scalar":
@@ -714,15 +828,25 @@ def main():
         else:
             n = int(meta["shape"][4:])
             tag = [None if vals.get(f"e{k}n") else vals.get(f"e{k}v", 0) for k in range(n)]
+        if meta["tag"] == "nonexistent":
+            tag = "x"         # the tag's @optional scope does not exist: every value passes
         pval = None if vals.get("pn") else vals.get("pv", 0)
         try:
             (pass_real, mem_real), = native([(op, tag, pval)])
         except Unsupported as e:
             inconclusive.append(f"{oid}: replay failed to run: {e}")
             continue
-        if pass_real and not mem_real:
+        if meta.get("panic") and pass_real and mem_real == "panic":
             os.makedirs(f"{VERIF}/replay", exist_ok=True)
-            path = f"{VERIF}/replay/C04-{meta['fn']}-{op}.txt"
+            path = f"{VERIF}/replay/C04-{meta['fn']}-{op}-{meta['tag']}-panic.txt"
+            open(path, "w").write(f"{op}|{enc(tag)}|{enc(pval)}\n# replay: python3 /verif/c04_mir.py --replay {path}\n# the engine lets property value {pval} through `{op}` against tag value {tag} ('x' = tag from a non-existent optional scope), but computing the dynamic hint candidate panics\n")
+            print(f"VIOLATION property=C04 replay={path}")
+            print(f"  {meta['fn']}: computing the hint for `{op}` panics although the filter passes: property value {pval}, tag value {tag}")
+            reported += 1
+            continue
+        if pass_real and mem_real is False:
+            os.makedirs(f"{VERIF}/replay", exist_ok=True)
+            path = f"{VERIF}/replay/C04-{meta['fn']}-{op}-{meta['tag']}.txt"
             open(path, "w").write(f"{op}|{enc(tag)}|{enc(pval)}\n# replay: python3 /verif/c04_mir.py --replay {path}\n# the real filter `{op}` passes for property value {pval} against tag value {tag}, but the dynamic hint candidate computed by {meta['fn']} does not contain it\n")
             print(f"VIOLATION property=C04 replay={path}")
             print(f"  {desc}: property value {pval}, tag value {tag}")
@@ -820,9 +944,9 @@ def replay(path):
         if s.startswith("["):
             return [dec(x) for x in s[1:-1].split(",") if x]
         return int(s)
-    (pass_real, mem_real), = native([(op, dec(tag), dec(p))])
+    (pass_real, mem_real), = native([(op, "x" if tag == "x" else dec(tag), dec(p))])
     print(f"real filter passes={pass_real}; real hint candidate contains the value={mem_real}")
-    if pass_real and not mem_real:
+    if pass_real and mem_real in (False, "panic"):
         print(f"VIOLATION property=C04 replay={path}")
         return 1
     return 0
